@@ -139,6 +139,7 @@ FUZZ = {
  "C02": "fz_expr (bytes = random stream of the expression/context strategy)",
  "C03": "fz_prog (bytes = random stream of the three-template program strategy)",
  "C06": "fz_add (bytes = template source, lexeme dictionary, repository inputs as corpus)",
+ "C07": "fz_hostile (bytes = random stream of the built-in expression + hostile context strategy)",
  "C08": "fz_ws (bytes = random stream of the segment-list/delimiter strategy)",
  "C09": "fz_expr and fz_prog",
  "C12": "fz_add and fz_expr",
